@@ -402,9 +402,9 @@ Theorem new_alloc_refusal_iff_invalid : forall t r c f,
 Proof. exact new_alloc_refusal_iff_invalid_l. Qed.
 Print Assumptions new_alloc_refusal_iff_invalid.
 
-(* every refusal returns -1 and calls the error function once (never for an invalid handle,
-   which gives EINVAL); it is a usage error, or the singular 'a' matrix of an add with a given
-   'a', or the category a solve kernel reported *)
+(* every refusal returns -1 and calls the error function once (not for a NULL handle, which the
+   functions that test it - all of them, as found: gen_handle_<f> - answer with EINVAL); it is a usage
+   error, or the singular 'a' matrix of an add with a given 'a', or the category a solve kernel reported *)
 Theorem new_fail_classified : forall valid h c v r,
   check_new valid h c = Refuse v r ->
   v = VM1 /\
